@@ -37,6 +37,8 @@ impl Serialize for SubpacketLength {
     open spec fn wire(&self) -> Seq<u8> { splen_wire(*self) }
     open spec fn ser_inv(&self) -> bool { splen_wf(*self) }
     open spec fn len_inv(&self) -> bool { true }
+    /// the debug assertions of to_writer (One < 192, first octet of Two in 192..=254)
+    open spec fn wr_inv(&self) -> bool { splen_wf(*self) }
     #[verifier::external_body]
     fn to_writer<W: io::Write>(&self, writer: &mut W) -> (r: errors::Result<()>) { unimplemented!() }
     #[verifier::external_body]
